@@ -7,7 +7,8 @@ From God Require Import Base.Prelude.
 From God Require Export C06.Spec C06.Model C06.ModelConc.
 From God Require C18.Conc.
 From Coq Require Import QArith.
-From GodGen Require C06_Gen.
+(* no dependency on GodGen: the numbers used here are the statement's own (Spec.safe_gap, Model.expire_deviation);
+   Link.v proves that the constants regenerated from the Go sources equal them *)
 Local Open Scope Z_scope.
 
 Inductive xop :=
@@ -54,8 +55,8 @@ Definition universe : list key := [PK 0; PK 1; PK 2; PK 3; IX 0; IX 1; IX 2].
 Definition key_index (k : key) : nat := match k with PK id => id | IX i => (4 + i)%nat end.
 Definition place_of (c : case) (k : key) : nat := nth (key_index k) (c_place c) 0%nat.
 Definition cfg_of (c : case) : cfg :=
-  mkC (c_expire c * sec) (c_nfexpire c * sec) C06_Gen.cacheSafeGapBetweenIndexAndPrimary.
-Definition fac (m : Z) : Q := factor C06_Gen.expireDeviation (m # 1024).
+  mkC (c_expire c * sec) (c_nfexpire c * sec) safe_gap.
+Definition fac (m : Z) : Q := factor expire_deviation (m # 1024).
 Definition nnodes (c : case) : nat := if Nat.eqb (c_level c) 2 then c_nnodes c else 1%nat.
 
 (* ---------- model agreement ---------- *)
@@ -230,12 +231,12 @@ Definition spec_step (c : case) (s : sst) (o : xop) (ob : oobs) : bool * sst :=
         (if nofault f && negb (mem k (s_taint s)) && clean then rres_eqb (o_res ob) (expect_index (s_t s) i) else true) &&
         (if negb (fg f) && shielded s k then same_q else true) &&
         ttl_ok c true s (o_dump ob) &&
-        (* the index entry written now does not outlive the primary entry it points to *)
+        (* the index entry written now does not outlive the primary entry it points to: the safety gap of 5 s *)
         (match dump_lookup (o_dump ob) (place_of c k) k with
          | Some (VPk pk, ttl) =>
              if entry_eqb (dump_lookup (s_dump s) (place_of c k) k) (Some (VPk pk, ttl)) then true
              else match dump_lookup (o_dump ob) (place_of c (PK pk)) (PK pk) with
-                  | Some (_, ttl') => ttl <=? ttl'
+                  | Some (_, ttl') => ttl' =? ttl + safe_gap / sec   (* written in the same call: 5 s later, c06_index_gap *)
                   | None => false
                   end
          | _ => true
